@@ -101,4 +101,7 @@ def evalf(t, env, extra=None):
             return go(ch[0]) ** go(ch[1])
         raise EvalError(f"operator {d.name()}")
 
-    return go(t)
+    try:
+        return go(z3.simplify(t, som=False))  # n-ary sums/products: shallow recursion
+    except RecursionError:
+        raise EvalError("term too deep to evaluate")
